@@ -206,6 +206,7 @@ Section KholawProofs.
     all: destruct kh_consts as (HL & _ & _ & _ & -> & _ & _ & _ & -> & ->); rewrite HL.
     all: fold (kl_of k); fold (kr_of k).
     all: destruct (N.eqb_spec ((8 * zl28 z + kl_of k) mod ed_order) 0) as [|NZ]; cbn [negb bind Ok Err]; [discriminate|].
+    all: destruct (N.ltb_spec (8 * zl28 z + kl_of k) (256 ^ N.of_nat 32)) as [LT|]; cbn [bind Ok Err]; [|discriminate].
     all: destruct (int_to_le_fixed 32 (8 * zl28 z + kl_of k)) as [kl'|] eqn:E1; cbn [bind Ok Err]; [|discriminate].
     all: destruct (int_to_le_fixed_ok _ _ _ E1) as (O1 & L1 & V1).
     all: assert (Hkr : (le_to_int (skipn 32 z) + kr_of k) mod 2 ^ 256 < 256 ^ N.of_nat 32)
@@ -249,6 +250,22 @@ Section KholawProofs.
     destruct (is_hardened i); cbn [fst snd]; rewrite zl8_val;
       destruct kh_consts as (HL & _ & _ & _ & _ & _ & _ & _ & -> & _); rewrite HL; fold (kl_of k);
       rewrite N.add_comm, Z; reflexivity.
+  Qed.
+
+  (* ... and so is a child whose left half does not fit 32 bytes (fix 71d2424; before it: OverflowError).  Only a
+     parent with kL >= 2^256 - 2^227 gets here *)
+  Theorem ckd_priv_refuses_overflow n k i : i < 2 ^ 32 ->
+    2 ^ 256 <= kl_of k + 8 * zl28 (step_z n k i) ->
+    ckd_priv kh_derivator n k i = Err (LibError Bip32KeyError).
+  Proof.
+    intros Hi Z. unfold Bip32Kholaw.ckd_priv. cbn [d_ser_index d_new_left d_new_right kh_derivator Bip32Kholaw.kh_derivator].
+    rewrite (ser_index_le i Hi). cbn [bind Ok Err].
+    unfold step_z in Z. unfold kh_new_left.
+    destruct (is_hardened i); cbn [fst snd]; rewrite zl8_val;
+      destruct kh_consts as (HL & _ & _ & _ & _ & _ & _ & _ & _ & ->); rewrite HL; fold (kl_of k);
+      (match goal with |- context [negb ?c] => destruct (negb c) end; [|reflexivity]);
+      rewrite pow256_32;
+      (match goal with |- context [?a <? ?b] => destruct (N.ltb_spec a b) as [LT|] end; [lia|reflexivity]).
   Qed.
 
   (* hardened_from_public_refused *)
